@@ -268,7 +268,15 @@ def check_sort_key_shape(ctx, P, utils, fn, consts):
         sec = r.value.elts[1]
         cands = [sec] if isinstance(sec, ast.Name) else []
         for nm in cands:
+            # a None test of the name between the definition and the return (if x is None: x = 0) repairs it
+            none_tests = [t for t in ast.walk(fn) if isinstance(t, ast.If) and any(
+                (isinstance(c_, ast.Compare) and isinstance(c_.left, ast.Name) and c_.left.id == nm.id and isinstance(c_.ops[0], (ast.Is, ast.IsNot, ast.Eq))
+                 and isinstance(c_.comparators[0], ast.Constant) and c_.comparators[0].value is None)
+                or (isinstance(c_, ast.UnaryOp) and isinstance(c_.op, ast.Not) and isinstance(c_.operand, ast.Name) and c_.operand.id == nm.id)
+                for c_ in ast.walk(t.test))]
             for d in reaching_defs(fn, nm.id, nm):
+                if any(d.lineno < t.lineno <= r.lineno for t in none_tests if d is not None):
+                    continue
                 if isinstance(d, ast.Assign) and isinstance(d.value, ast.Call) and isinstance(d.value.func, ast.Name) \
                         and utils.has_func(d.value.func.id) and Interp.may_return_none(utils.func(d.value.func.id)):
                     ctx.finding('R10', '%s::discipline_sort_key::%s order component may be None' % (UTILS, pat or 'fall-through'), UTILS, d.lineno,
